@@ -11,6 +11,7 @@ import (
 	"encoding/json"
 	"errors"
 	"fmt"
+	"sort"
 	"strings"
 	"sync"
 	"sync/atomic"
@@ -637,8 +638,13 @@ func runSpawns(c SCase) (map[string]int, error) {
 			if op.Poisoned {
 				// [gate1] then, while the actor is blocked in it: [pill, gate2, backlog..., marker] - one batch
 				g1, g2 := gate{make(chan struct{})}, gate{make(chan struct{})}
-				in2 := make(chan struct{})
-				e.Send(pid, g1)
+				in1, in2 := make(chan struct{}), make(chan struct{})
+				e.Send(pid, gateIn{g1.ch, in1})
+				// the actor must be INSIDE the first gate before anything else is queued: only then is
+				// everything that follows popped as one batch when the gate opens
+				if err := waitCh(in1, "the incumbent never reached the first gate"); err != nil {
+					return nil, err
+				}
 				h.mu.Lock()
 				base := len(h.logs[full])
 				h.mu.Unlock()
@@ -783,6 +789,34 @@ func runSpawns(c SCase) (map[string]int, error) {
 			case <-time.After(wait):
 				return nil, fmt.Errorf("%w: parent did not answer a lookup", errInconclusive)
 			}
+		}
+		// the parent still lists exactly its live children: a duplicate spawn over a child leaves that
+		// child untouched, also in its parent's books (a delisted child is not stopped with its parent)
+		kids := make(chan []string, 1)
+		e.Send(h.parent, func(c *actor.Context) {
+			var l []string
+			for _, p := range c.Children() {
+				if p != nil {
+					l = append(l, p.ID)
+				}
+			}
+			sort.Strings(l)
+			kids <- l
+		})
+		select {
+		case got := <-kids:
+			var want []string
+			for f, mm := range model {
+				if mm.live && strings.HasPrefix(f, "par/0/kid/") {
+					want = append(want, f)
+				}
+			}
+			sort.Strings(want)
+			if strings.Join(got, ",") != strings.Join(want, ",") {
+				return nil, fmt.Errorf("op %d (%s %s): the parent's Children() = %v, but its live children are %v", oi, op.K, full, got, want)
+			}
+		case <-time.After(wait):
+			return nil, fmt.Errorf("%w: parent did not answer Children()", errInconclusive)
 		}
 	}
 	return feat, nil
